@@ -46,7 +46,7 @@ def elem_value(kind, term):
 def byte_fact(st, t):
     """0 <= t <= 255 for a byte read out of a bytes value."""
     if t.op != "int":
-        st.assume(tm.And(tm.Le(tm.Int(0), t), tm.Le(t, tm.Int(255))))
+        st.assume(tm.And(tm.Le(tm.Int(0), t), tm.Le(t, tm.Int(255))), axiom=True)
 
 
 def len_term(st, v):
@@ -121,7 +121,7 @@ def narrow(ip, st, v):
                 keep.append(k)
         feas = keep
     if ip.feasible(st, tm.Or(tm.Lt(tag, tm.Int(0)), tm.Gt(tag, tm.Int(6)))):
-        st.assume(tm.And(tm.Le(tm.Int(0), tag), tm.Le(tag, tm.Int(6))))
+        st.assume(tm.And(tm.Le(tm.Int(0), tag), tm.Le(tag, tm.Int(6))), axiom=True)
     for n, k in enumerate(feas):
         s = st if n == len(feas) - 1 else st.fork()
         if len(feas) > 1:
@@ -143,10 +143,10 @@ def narrowed(st, v, k):
     if k == V.TAG_STR:
         return Sym("str", V.j_sval(t))
     if k == V.TAG_LIST:
-        st.assume(tm.Le(tm.Int(0), V.j_llen(t)))
-        st.assume(tm.Lt(V.j_llen(t), tm.Int(2 ** 32)))      # A-MEM: a request line is shorter than 2^32 bytes
+        st.assume(tm.Le(tm.Int(0), V.j_llen(t)), axiom=True)
+        st.assume(tm.Lt(V.j_llen(t), tm.Int(2 ** 32)), axiom=True)      # A-MEM: a request line is shorter than 2^32 bytes
         return JList(t)
-    st.assume(tm.Le(tm.Int(0), V.j_dlen(t)))
+    st.assume(tm.Le(tm.Int(0), V.j_dlen(t)), axiom=True)
     return JDict(t, v.oid)
 
 
